@@ -30,7 +30,9 @@ CFG = dict(
          "blocked write) of the old connection, twice; the context cancelled at EVERY step of each of these (quick: a third of the positions "
          "of the long ones); transports that ignore their context; faults and cancellation in ONE step (also cancelling from inside the "
          "forwarding loop), repeated, judged by the predicates alone; a peer dialled on demand whose connection then fails (read / write / blocked write / dial error) and is dialled again, with the "
-         "context cancelled at every step; seeded random walks with faults; free-running stress with forged sources; AddClient and live traffic during a slow dial; a stuck peer with a full queue and MORE envelopes for it of every kind (body, trailer, "
+         "context cancelled at every step; seeded random walks with faults; free-running stress with forged sources; AddClient and live traffic during a slow dial; the context ending (cancelled from inside the forwarding loop / the connection's own, by "
+         "a failing Read) while a destination has 1, 5, 16 envelopes being queued behind a transport that has just been set to block, repeated, "
+         "then 1 s and 6 s of virtual time as steps without action and the transport released; a stuck peer with a full queue and MORE envelopes for it of every kind (body, trailer, "
          "status+trailer, reset, ...) in one step with live traffic between two healthy peers; every observation is made BEFORE virtual time "
          "passes, then 150 ms of virtual time go by and anything that happens then is recorded as a step without action (the model predicts "
          "nothing; the isolation predicate sees the delay); both directions of one connection failing (either order, 8 error values) while the serve "
